@@ -30,6 +30,11 @@ def parseStep (t : String) : Option Step :=
   | ["draw32"] => some .draw32
   | ["send", dst, k] => k.toNat?.map (fun k => Step.send dst k 0)
   | ["send", dst, k, d] => do let k ← k.toNat?; let d ← d.toNat?; pure (.send dst k d)
+  | ["schedr", k] => k.toNat?.map Step.schedr
+  | ["spin", n, e] => do
+    let n ← n.toNat?
+    let e ← e.toNat?
+    if e == 0 then none else pure (.spin n n e)
   | ["sig", n] => some (.sig n)
   | ["wait", n] => some (.wait n)
   | ["sched", d, k] => do let d ← d.toNat?; let k ← k.toNat?; pure (.sched d k)
@@ -47,6 +52,7 @@ structure Script where
   links : List Link := []
   rules : List (String × On × List Step) := []
   tasks : List (String × List Step) := []
+  ndl : Bool := false
 
 def parseScript (body : List String) : Script := Id.run do
   let mut sc : Script := {}
@@ -61,13 +67,16 @@ def parseScript (body : List String) : Script := Id.run do
       | none => pure ()
       sc := { sc with created := sc.created ++ [(path, (kvNat rest "ttl").getD 0)] }
     | _ => pure ()
+  -- `ndl base=<k>`: the network is built from an NDL description: flat (root `^` + submodules), channel-less links
+  if body.any (fun l => match words l with | ["ndl", kv] => kv.startsWith "base=" && ((kv.drop 5).toNat?).isSome | _ => false) then
+    sc := { sc with ndl := true, created := sc.created.filter (fun m => !(m.1.splitOn ".").length ≥ 2) }
   let has := fun (sc : Script) (p : String) => sc.created.any (·.1 == p)
   for line in body do
     match words line with
     | "link" :: src :: dst :: rest =>
       if !has sc src || !has sc dst || src == dst then continue
       if sc.links.any (fun l => l.src == src && l.dst == dst) then continue
-      if rest.contains "direct" then
+      if rest.contains "direct" || sc.ndl then
         sc := { sc with links := sc.links ++ [⟨src, dst, none⟩] }
       else
         match kvNat rest "lat", kvNat rest "jit" with
@@ -248,7 +257,17 @@ def main (stdin : IO.FS.Stream) : IO Unit := do
       IO.println s!"fail {id} op=0 kind=diverge detail=stream:{us e}"
       continue
     | .ok stream =>
-      let net : Net := { mods := treeOrder sc.created, links := sc.links, rules := sc.rules, tasks := sc.tasks, skipEmpty := skipEmpty }
+      -- an NDL network: the order in which `transform` lists the submodules (= creation, start and end order) is
+      -- an input, read off trace a1 (C18: it is a function of the description); the root comes first
+      let ndlMods : List ModSpec := Id.run do
+        let mut order : List String := ["^"]
+        for o in a1.obs do
+          if o.what == "start" && !order.contains o.path then order := order ++ [o.path]
+        for m in sc.created do
+          if !order.contains m.1 then order := order ++ [m.1]
+        let names := order.filter (fun p => p == "^" || sc.created.any (·.1 == p))
+        return names.zipIdx.map (fun x => ⟨x.1, ((sc.created.find? (·.1 == x.1)).map (·.2)).getD 0, x.2⟩)
+      let net : Net := { mods := if sc.ndl then ndlMods else treeOrder sc.created, links := sc.links, rules := sc.rules, tasks := sc.tasks, skipEmpty := skipEmpty }
       -- a non-canonical ambient (the result does not depend on it: C04.trace_ambient_independent)
       let base := seed % 60000
       let amb : Ambient := ⟨fun k => 255 + base + k, fun k => 7 * base + k⟩
@@ -309,6 +328,10 @@ def main (stdin : IO.FS.Stream) : IO Unit := do
       let restarts := cnt "reset"
       let nt := sc.created.length ≥ 2 && draws ≥ 1 && remote ≥ 1 && decisive && wantChild &&
         (jit ≥ 1 || decisiveLater)
-      IO.println s!"ok {id} nt={if nt then 1 else 0} mods={sc.created.length} obs={a1.obs.size} draws={draws} jitter={jit} selpolls={cnt "sp"} sels={cnt "sel"} msgs={cnt "msg"} wakes={cnt "woke"} unfinished={a1.drops.size} child={if wantChild then 1 else 0} stream={stream.length} resets={restarts} laterdecisive={if decisiveLater then 1 else 0} xmits={cnt "xmit"} sendin={sendin} sigs={cnt "sig"} gots={cnt "got"} endemits={endEmits}"
+      -- an NDL-built network: >= 4 modules started, each start draws (who draws what depends on the elaboration order)
+      let starts := cnt "start"
+      let ntNdl := sc.ndl && starts ≥ 5 && draws ≥ starts - 1 && cnt "msg" ≥ 3 && wantChild
+      let nt := nt || ntNdl
+      IO.println s!"ok {id} nt={if nt then 1 else 0} mods={sc.created.length} obs={a1.obs.size} draws={draws} jitter={jit} selpolls={cnt "sp"} sels={cnt "sel"} msgs={cnt "msg"} wakes={cnt "woke"} unfinished={a1.drops.size} child={if wantChild then 1 else 0} stream={stream.length} resets={restarts} laterdecisive={if decisiveLater then 1 else 0} xmits={cnt "xmit"} sendin={sendin} sigs={cnt "sig"} gots={cnt "got"} endemits={endEmits} ndl={if sc.ndl then 1 else 0}"
 
 end Driver.C04
